@@ -518,9 +518,9 @@ Definition bo_range_iterator (t : kvmap) (s e : option bytes) : bo_iter :=
   bo_seek {| bo_t := t; bo_cursor := t; bo_kv := None; bo_valid := false;
              bo_prefix := None; bo_start := s; bo_end := e |} (ob s).
 
-(* --- engine range cursor [start, end) used by the goleveldb and moss adapters, whose Iterator
-   types only forward Seek/Next/Key/Value/Valid to the engine iterator: Seek clamps to start,
-   valid while the key is below end (None = no limit). *)
+(* --- engine range cursor [start, end) used by the goleveldb and moss adapters (goleveldb's Iterator
+   only forwards Seek/Next/Key/Value/Valid to it): Seek clamps to start, valid while the key is below
+   end (None = no limit). *)
 Record rc_iter := {
   rc_t : kvmap;
   rc_cur : kvmap;
@@ -546,11 +546,35 @@ Definition ldb_prefix_iterator (t : kvmap) (p : option bytes) : rc_iter :=
   rc_make t (ob p) (next_prefix (ob p)).
 Definition ldb_range_iterator (t : kvmap) (s e : option bytes) : rc_iter := rc_make t (ob s) e.
 
-(* moss reader.go: PrefixIterator = StartIterator(k, incrementBytes(k)); the successor function is
-   a parameter: [incr_carry] (today's code) or [incr_strip] (repaired), selected by a T1 fact *)
-Definition moss_prefix_iterator (succ : bytes -> option bytes) (t : kvmap) (p : option bytes) : rc_iter :=
-  rc_make t (ob p) (succ (ob p)).
-Definition moss_range_iterator (t : kvmap) (s e : option bytes) : rc_iter := rc_make t (ob s) e.
+(* --- moss iterator.go (as of /repo 470bc61) over the engine range cursor.
+   reader.go: PrefixIterator = StartIterator(k, incrementBytes(k)), RangeIterator = StartIterator(start, end),
+   both remembering start/end in the adapter's Iterator.  The successor function is a parameter:
+   [incr_carry] (today's incrementBytes) or [incr_strip] (repaired), selected by a T1 fact.
+   Seek: when the iterator is exhausted (x.err != nil) or the target is before the current key, a NEW
+   engine iterator is started at max(target, x.start) with x.end; otherwise the engine's SeekTo. *)
+Record ms_iter := {
+  ms_eng : rc_iter;            (* x.iter over x.ss *)
+  ms_start : bytes;            (* x.start *)
+  ms_end : option bytes        (* x.end *)
+}.
+Definition ms_current (it : ms_iter) : option entry := rc_current (ms_eng it).
+Definition ms_next (it : ms_iter) : ms_iter :=
+  {| ms_eng := rc_next (ms_eng it); ms_start := ms_start it; ms_end := ms_end it |}.
+Definition ms_seek (it : ms_iter) (k : bytes) : ms_iter :=
+  let restart := match ms_current it with
+                 | None => true                   (* x.err != nil *)
+                 | Some (ck, _) => bltb k ck      (* bytes.Compare(seekToKey, x.k) < 0 *)
+                 end in
+  if restart then
+    let s := if bltb k (ms_start it) then ms_start it else k in
+    {| ms_eng := rc_make (rc_t (ms_eng it)) s (ms_end it); ms_start := ms_start it; ms_end := ms_end it |}
+  else
+    {| ms_eng := rc_seek (ms_eng it) k; ms_start := ms_start it; ms_end := ms_end it |}.
+Definition ms_make (t : kvmap) (s : bytes) (e : option bytes) : ms_iter :=
+  {| ms_eng := rc_make t s e; ms_start := s; ms_end := e |}.
+Definition moss_prefix_iterator (succ : bytes -> option bytes) (t : kvmap) (p : option bytes) : ms_iter :=
+  ms_make t (ob p) (succ (ob p)).
+Definition moss_range_iterator (t : kvmap) (s e : option bytes) : ms_iter := ms_make t (ob s) e.
 
 (* --- one interface over the variants *)
 Inductive variant :=
@@ -559,28 +583,34 @@ Inductive variant :=
 | VLdb
 | VMoss (succ : bytes -> option bytes).
 
-Inductive iter := IGt (i : gt_iter) | IBo (i : bo_iter) | IRc (i : rc_iter).
+Inductive iter := IGt (i : gt_iter) | IBo (i : bo_iter) | IRc (i : rc_iter) | IMs (i : ms_iter).
 
 Definition it_seek (it : iter) (k : bytes) : iter :=
-  match it with IGt i => IGt (gt_seek i k) | IBo i => IBo (bo_seek i k) | IRc i => IRc (rc_seek i k) end.
+  match it with
+  | IGt i => IGt (gt_seek i k) | IBo i => IBo (bo_seek i k) | IRc i => IRc (rc_seek i k) | IMs i => IMs (ms_seek i k)
+  end.
 Definition it_next (it : iter) : iter :=
-  match it with IGt i => IGt (gt_next i) | IBo i => IBo (bo_next i) | IRc i => IRc (rc_next i) end.
+  match it with
+  | IGt i => IGt (gt_next i) | IBo i => IBo (bo_next i) | IRc i => IRc (rc_next i) | IMs i => IMs (ms_next i)
+  end.
 Definition it_current (it : iter) : option entry :=
-  match it with IGt i => gt_current i | IBo i => bo_current i | IRc i => rc_current i end.
+  match it with
+  | IGt i => gt_current i | IBo i => bo_current i | IRc i => rc_current i | IMs i => ms_current i
+  end.
 
 Definition prefix_iterator (v : variant) (t : kvmap) (p : option bytes) : iter :=
   match v with
   | VGtreap => IGt (gt_prefix_iterator t p)
   | VBolt => IBo (bo_prefix_iterator t p)
   | VLdb => IRc (ldb_prefix_iterator t p)
-  | VMoss succ => IRc (moss_prefix_iterator succ t p)
+  | VMoss succ => IMs (moss_prefix_iterator succ t p)
   end.
 Definition range_iterator (v : variant) (t : kvmap) (s e : option bytes) : iter :=
   match v with
   | VGtreap => IGt (gt_range_iterator t s e)
   | VBolt => IBo (bo_range_iterator t s e)
   | VLdb => IRc (ldb_range_iterator t s e)
-  | VMoss _ => IRc (moss_range_iterator t s e)
+  | VMoss _ => IMs (moss_range_iterator t s e)
   end.
 
 (* Driving an iterator with a program under the usual discipline `for it.Valid() { ..; it.Next() }`:
